@@ -2,11 +2,11 @@
 package main
 
 import (
-	"sort"
 	"fmt"
 	"go/constant"
 	"go/token"
 	"go/types"
+	"sort"
 	"strings"
 
 	"golang.org/x/tools/go/ssa"
@@ -401,16 +401,12 @@ func c05Splitter(c *Ctx, p *Prog) {
 	// in the split return; a further condition on that path (position > 0, length limits) makes well-formed -N
 	// suffixes go unsplit for some names.
 	nIter := 0
-	for _, lp := range naturalLoops(split) {
-		start := loopBodyStart(lp)
-		if start == nil {
-			continue
-		}
+	{
 		mk := func() *e6Interp { return &e6Interp{PureCall: func(f *types.Func) bool { return true }} }
-		outs, why := e6Enumerate(mk, start, lp.Header, iterStop(lp, start), 256)
+		outs, why := regionOutcomes(split, mk, 512)
 		if why != "" {
 			c.Undecided(R, "splitter:iteration", site, why)
-			continue
+			outs = nil
 		}
 		for _, o := range outs {
 			dash, follows, other := "?", "?", []string{}
@@ -458,7 +454,7 @@ func c05Lookup(c *Ctx, p *Prog, R string) {
 	// the sub-name lookup: function in benchproc calling Name.Parts and bytes.HasPrefix with a []byte parameter
 	var fn *ssa.Function
 	for _, f := range p.Funcs("benchproc") {
-		if len(callsIn(f, bfPkg, "Name", "Parts")) > 0 && len(callsIn(f, "bytes", "", "HasPrefix")) > 0 && f.Signature.Params().Len() == 3 {
+		if len(callsIn(f, bfPkg, "Name", "Parts")) > 0 && (len(callsIn(f, "bytes", "", "HasPrefix")) > 0 || len(callsIn(f, "bytes", "", "CutPrefix")) > 0) && f.Signature.Params().Len() == 3 {
 			fn = f
 		}
 	}
@@ -500,6 +496,16 @@ func c05Lookup(c *Ctx, p *Prog, R string) {
 				ret, ok := s.Instrs[len(s.Instrs)-1].(*ssa.Return)
 				if !ok || !b.Dominates(s) && s != b {
 					continue
+				}
+				// val, ok := bytes.CutPrefix(part, prefix); if ok { return val }
+				if ex, isEx := retVal(ret, 0).(*ssa.Extract); isEx && ex.Index == 0 {
+					if cc, isCall := ex.Tuple.(*ssa.Call); isCall && objIs(calleeObj(&cc.Call), "bytes", "", "CutPrefix") && cc.Call.Args[1] == prefix {
+						for _, f := range factsAt(s) {
+							if ok2, isEx2 := f.Cond.(*ssa.Extract); isEx2 && f.True && ok2.Index == 1 && ok2.Tuple == cc {
+								okRet = true
+							}
+						}
+					}
 				}
 				sl, ok := retVal(ret, 0).(*ssa.Slice)
 				if !ok || sl.Low == nil {
